@@ -101,7 +101,7 @@ pub fn run(tier: Tier) -> CheckResult {
     let mut res = CheckResult::new("C09", "model_checking");
     let deadline = tier_deadline(tier);
     let mut graphs: Vec<(usize, u32)> = vec![];
-    let max_n = if tier == Tier::Quick { 3 } else { 4 };
+    let max_n = 4;
     for n in 1..=max_n {
         for mask in 0..(1u32 << (n * n)) {
             if is_acyclic(n, mask) {
@@ -156,7 +156,7 @@ pub fn run(tier: Tier) -> CheckResult {
         }
         let project = gc.project();
         let cfg = Cfg::mode(true);
-        let bound = if gc.n <= 3 { None } else { Some(if tier == Tier::Quick { 1 } else { 2 }) };
+        let bound = if gc.n <= 3 { None } else { Some(if tier == Tier::Quick { 2 } else { 3 }) };
         let mut first_output: Option<String> = None;
         let mut any_choice = false;
         let mut local_sites: BTreeMap<String, u64> = BTreeMap::new();
